@@ -30,3 +30,20 @@ def ratio(a: int, b: int) -> float:
 
 def third(x: int) -> float:
     return x / 3
+
+
+def tolerance(x: float) -> str:
+    """Float arithmetic that misses equality by a few ulps for most inputs (e.g. x = 1.0)."""
+    total = x * 0.1 + x * 0.2
+    if total == x * 0.3:
+        return "exact"
+    if total <= x * 0.3:
+        return "below"
+    return "rounded up"
+
+
+def scaled(x: int) -> float:
+    y = x / 10
+    if y * 10 == x:
+        return y
+    return float(x)
